@@ -1,6 +1,7 @@
 import CaoModel.Compiler
 import CaoModel.Generated.Stdlib
 import CaoModel.Bytecode
+import CaoProofs.Lemmas.CapCheckDef
 /-! Line protocol of the `cmp` engine: `cmp compile <moduletok>` prints the whole compiled program
     (or the compilation error with its location) in a canonical, sorted form. -/
 namespace Cao.Driver
@@ -75,7 +76,9 @@ def parseProgram (args : List String) : Program :=
 
 def wfLine (p : Program) : String :=
   match Bytecode.wfReason p with
-  | none => "wf:ok n=" ++ toString ((Bytecode.decodeAll p.bytecode (p.bytecode.size + 1) 0 []).toOption.getD []).length
+  | none => "wf:ok n=" ++ toString ((Bytecode.decodeAll p.bytecode (p.bytecode.size + 1) 0 []).toOption.getD []).length ++
+      -- the static hypothesis of `C04c.run_no_capture_panic`, decided on these bytes
+      " cap=" ++ toString (Cao.C04c.capStaticB p)
   | some r => "wf:" ++ r
 
 def cmpStep (args : List String) : String :=
